@@ -611,6 +611,8 @@ ErrorCode Library::write_oas(const char* filename, double circle_tolerance,
     Map<uint64_t> cell_name_map = {};
     Map<uint64_t> cell_offset_map = {};
     Map<uint64_t> text_string_map = {};
+    // Properties of the temporary polygons of non-simple paths, kept until the PROPSTRING table is written
+    Array<Property*> temporary_properties = {};
     bool write_cell_offsets = state.config_flags & OASIS_CONFIG_PROPERTY_CELL_OFFSET;
 
     // Build cell name map. Other maps are built as the file is written.
@@ -662,6 +664,9 @@ ErrorCode Library::write_oas(const char* filename, double circle_tolerance,
                     Polygon* poly = *poly_p++;
                     err = poly->to_oas(out, state);
                     if (err != ErrorCode::NoError) error_code = err;
+                    // state.property_value_array points into these until the PROPSTRING table is written
+                    temporary_properties.append(poly->properties);
+                    poly->properties = NULL;
                     poly->clear();
                     free_allocation(poly);
                 }
@@ -684,6 +689,9 @@ ErrorCode Library::write_oas(const char* filename, double circle_tolerance,
                     Polygon* poly = *poly_p++;
                     err = poly->to_oas(out, state);
                     if (err != ErrorCode::NoError) error_code = err;
+                    // state.property_value_array points into these until the PROPSTRING table is written
+                    temporary_properties.append(poly->properties);
+                    poly->properties = NULL;
                     poly->clear();
                     free_allocation(poly);
                 }
@@ -931,6 +939,8 @@ ErrorCode Library::write_oas(const char* filename, double circle_tolerance,
     text_string_map.clear();
     state.property_name_map.clear();
     state.property_value_array.clear();
+    for (uint64_t i = 0; i < temporary_properties.count; i++) properties_clear(temporary_properties[i]);
+    temporary_properties.clear();
     return error_code;
 }
 
